@@ -14,6 +14,7 @@ void gen_async_ops(Rng &g, run::Plan &p, int nops, bool ha, int neps) {
 	struct W { const char *k; int w; };
 	std::vector<W> ws = {{"ADD", 20}, {"RUN", 26}, {"SRVREAD", 10}, {"REPLY", 16}, {"DELIVER", 16}, {"TICK", 6}, {"FREE", 3}, {"READD", 4}};
 	if (p.c("recreate", 0)) ws.push_back({"RECREATE", 2});
+	if (!ha && p.c("growcache", 0)) ws.push_back({"GROWCACHE", 3});
 	if (adv) { ws.push_back({"DUP", 2}); ws.push_back({"PREMATURE", ha ? 0 : 2}); ws.push_back({"PUSHCONF", ha ? 6 : 2}); ws.push_back({"TAMPER", c06 ? 12 : 2}); }
 	else if (ha) ws.push_back({"PUSHCONF", 6});
 	static const char *fk[] = {"CLOSE", "RESET", "REFUSE", "BLACKHOLE", "DNSFAIL", "SENDBUF", "SENDCUT", "RECVCUT", "CONNDELAY", "JUMP", "HTTPSTATUS"};
@@ -66,6 +67,7 @@ void gen_async_ops(Rng &g, run::Plan &p, int nops, bool ha, int neps) {
 			op.a = {(int64_t)g.below(8), n2};
 		}
 		else if (kind == "TICK") op.a = {g.pickl<int64_t>({100, 300, 700, 1000, 1000, 1500, 2500, 5000, 11000})};
+		else if (kind == "GROWCACHE") op.a = {(int64_t)g.below(6)};
 		else if (kind == "DUP") op.a = {(int64_t)g.below(8)};
 		else if (kind == "PREMATURE") op.a = {(int64_t)g.below(8), (int64_t)g.below(1 << 30)};
 		else if (kind == "PUSHCONF") op.a = {(int64_t)g.below(neps), (int64_t)g.below(6), (int64_t)g.below(6), (int64_t)g.below(6), 0, (int64_t)g.below(1 << 30)};
@@ -106,6 +108,7 @@ void gen_async_cfg(Rng &g, run::Plan &p, bool ha) {
 	// (TCP endpoints only: freeing an HTTP service with transfers in flight leaves their easy handles attached to the context-wide
 	// curl multi handle with dangling user pointers - see DESIGN.md 10.6 - which is outside the properties studied here)
 	p.cfg["recreate"] = (g.chance(1, 5) && p.c("transport") == 0) ? 1 : 0;
+	p.cfg["growcache"] = (!ha && g.chance(1, 5)) ? 1 : 0;
 	// configuration requests among the submissions (plain service, PDU version 2)
 	p.cfg["conf_req"] = (!ha && p.c("pdu_ver") == 2 && g.chance(1, 4)) ? 1 : 0;
 	if (ha) p.cfg["eps"] = (int64_t)g.range(1, 3);
